@@ -27,24 +27,36 @@ LEVEL = 'proof'
 RULE = ('every (binop, integer type) x boundary operand pool (0, +-1, +-2, MIN, MAX, 2^(w-1), 2^w-1, '
         'shift counts 0..w, seeded random values), every unop and int->int cast pair likewise, float->int '
         'casts on halves/boundaries/random floats, load/store of every width on boundary values, phi '
-        'programs (swap, loop with live-out phi, diamond). A case is the execution of the Python text '
+        'programs (swap, loop with live-out phi, diamond), whole functions from tools/gen/irgen.py (diamond, loop, selfloop, '
+        'dupedge, casts) with generated arguments. A case is the execution of the Python text '
         'emitted by ir_to_python for a one-instruction (or small CFG) IR function. Non-trivial = distinct '
         '(instruction, type, operands) whose IR result is defined and whose operands are not all 0')
 EXPLANATION = ('Unbounded Coq theorems (every width > 0, every in-range operand) that the statements emitted '
                'by gen_binop/gen_unop/gen_cast over the emitted runtime helpers compute Spec.IRSemArith; '
-               'struct-based load/store helpers = little-endian two\'s complement for every emitted row; '
-               'tuple assignment of fill_phis = simultaneous phi semantics. The block dispatcher loop, calls, '
-               'alloc/free, float arithmetic, ptr-typed arithmetic and blob load/store are NOT modelled '
-               '(only executed in the search). Two genuine defects are refuted with witnesses: float->int '
-               'rounds instead of truncating; fill_phis also assigns the phis of the successor that is not '
-               'taken (clobbers a live phi).')
+               'struct-based load/store helpers = little-endian two\'s complement for every emitted row; the per-edge '
+               'tuple assignment of fill_phis = simultaneous phi semantics; and c24_block_switch_simulates: for every '
+               'well-formed module and every function of the integer/branch/phi/return fragment (Model.Ir2PyFunc.'
+               'compile_func, text-compared with the emitted function for generated CFGs on every run), whenever the '
+               'reference semantics Spec.IRSem.run_function returns a value, the emitted `while True` block dispatcher '
+               'returns the same value (unbounded over functions, CFGs, loops, fuel). NOT modelled in Coq (only executed '
+               'against the reference interpreter tools/irsem_py.py / an oracle in the search): calls, memory '
+               'instructions inside functions, alloc/free, float arithmetic, ptr-typed arithmetic, Undefined, '
+               'out-of-range constants. Repaired defects: float->int rounding and phis of the untaken successor (fixed '
+               'in /repo; _refuted theorems kept about the old generators). Known findings with proposed repairs: '
+               'rol/ror emitted as invalid Python (c24_binop_rol_refuted; repaired lowering proved exact in '
+               'c24_binop_rot_exact), NaN constant emitted as bare `nan`, rt.free of a statically summed size.')
 TRUSTED = ['tools/py2coq.py on the emitted helper text (cross-checked per run against exec of the same text)',
            'hand model Model/Ir2Py.v of the emitted statements (cross-checked per run: printed text == emitted '
            'text for every (op, type); value agreement on the pools)',
            'CPython facts: int arithmetic == Z; round(float) is round-half-even to int; int(float) truncates; '
            'struct.pack/unpack of b B h H i I q Q in native mode on a little-endian host (cross-checked per run)',
            'reading of the IR semantics in Spec/IRSemArith.v (C-like: truncating / %, shifts defined for '
-           '0 <= n < bits, MIN / -1 undefined)']
+           '0 <= n < bits, MIN / -1 undefined) and in Spec/IRSem.v (IR hub reference interpreter)',
+           'hand model Model/Ir2PyFunc.v of the emitted function body and its CPython meaning (sequential '
+           '`if _irpy_current_block == ...` tests inside `while True`; _irpy_current_block kept as a separate state '
+           'component; value names are assumed not to start with _irpy); cross-checked per run: printed text == emitted '
+           'function text and model run == executed function on irgen CFGs',
+           'tools/irimport.py (IR -> Spec.IRSyntax term) and tools/irsem_py.py (reference interpreter used by the search)']
 ASSUMPTIONS = ['operands are in range of their IR type (invariant established by every emitted instruction, '
                'assumed for function arguments and constants)',
                'host is little-endian (emitted struct formats use native byte order)',
@@ -53,9 +65,10 @@ ASSUMPTIONS = ['operands are in range of their IR type (invariant established by
 
 INT_TYPES = [('i8', 8, True), ('i16', 16, True), ('i32', 32, True), ('i64', 64, True),
              ('u8', 8, False), ('u16', 16, False), ('u32', 32, False), ('u64', 64, False)]
-BINOPS = [('+', 'Add'), ('-', 'Sub'), ('*', 'Mul'), ('/', 'Div'), ('%', 'Rem'), ('|', 'Or'), ('&', 'And'),
-          ('^', 'Xor'), ('<<', 'Shl'), ('>>', 'Shr'), ('rol', 'Rol'), ('ror', 'Ror')]
-UNOPS = [('-', 'Neg'), ('~', 'Inv')]
+BINOPS = [('+', 'IRSemArith.Add'), ('-', 'IRSemArith.Sub'), ('*', 'IRSemArith.Mul'), ('/', 'IRSemArith.Div'),
+          ('%', 'IRSemArith.Rem'), ('|', 'IRSemArith.Or'), ('&', 'IRSemArith.And'), ('^', 'IRSemArith.Xor'),
+          ('<<', 'IRSemArith.Shl'), ('>>', 'IRSemArith.Shr'), ('rol', 'IRSemArith.Rol'), ('ror', 'IRSemArith.Ror')]
+UNOPS = [('-', 'IRSemArith.Neg'), ('~', 'IRSemArith.Inv')]
 HELPERS = [{'name': 'correct', 'params': {'signed': 'bool'}}, {'name': 'idiv'}, {'name': 'irem'},
            {'name': 'ishl'}, {'name': 'ishr'}]
 
@@ -649,6 +662,129 @@ def expected_phi_lines(prog, bn, variant):
     return [(d, line(p), p) for (d, p) in out]
 
 
+# ------------------------------------------------------------------ whole functions (block dispatcher)
+INTS = {'i8', 'i16', 'i32', 'i64', 'u8', 'u16', 'u32', 'u64'}
+FUNC_FEATURES = ('diamond', 'loop', 'selfloop', 'dupedge', 'casts')
+
+
+def in_fragment(fpy):
+    """mirror of Model.Ir2PyFunc.compile_func <> None on the irimport structure of one function"""
+    name, binding, ret, params, blocks = fpy
+    if ret not in INTS or any(t not in INTS for _, t in params) or not blocks:
+        return False
+    dt = {}
+    for b in blocks:
+        for i in b[2]:
+            if i[0] in ('const', 'binop', 'unop', 'cast', 'load', 'phi', 'undefined', 'callf'):
+                dt[i[1]] = i[3]
+            elif i[0] in ('alloc', 'addressof', 'literal'):
+                dt[i[1]] = 'other'
+
+    def rint(r):
+        return (r[0] == 'loc' and dt.get(r[1]) in INTS) or r[0] == 'param'
+    bids = {b[0] for b in blocks}
+    for b in blocks:
+        for i in b[2]:
+            k = i[0]
+            if k == 'const':
+                if i[3] not in INTS or i[4][0] != 'int':
+                    return False
+                bits, sg = int(i[3][1:]), i[3][0] == 'i'
+                lo, hi = rng_of(bits, sg)
+                if not lo <= i[4][1] < hi:
+                    return False
+            elif k == 'binop':
+                if i[3] not in INTS or i[4] in ('rol', 'ror') or not (rint(i[5]) and rint(i[6])):
+                    return False
+            elif k in ('unop', 'cast'):
+                if i[3] not in INTS or not rint(i[-1]):
+                    return False
+            elif k == 'phi':
+                if i[3] not in INTS or not all(rint(r) for _, r in i[4]):
+                    return False
+            elif k == 'cjump':
+                if not (rint(i[1]) and rint(i[3])):
+                    return False
+            elif k == 'return':
+                if not rint(i[1]):
+                    return False
+            elif k != 'jump':
+                return False
+    # every phi has an input for every predecessor edge (KeyError in fill_phis otherwise)
+    for b in blocks:
+        for i in b[2]:
+            tg = [i[1]] if i[0] == 'jump' else ([i[4], i[5]] if i[0] == 'cjump' else [])
+            for t in tg:
+                for tb in blocks:
+                    if tb[0] == t:
+                        for j in tb[2]:
+                            if j[0] == 'phi' and b[0] not in [x for x, _ in j[4]]:
+                                return False
+    return True
+
+
+def function_text(text, fname):
+    """the lines ir2py emitted for function fname: from `def` up to the blank line before register_function"""
+    lines = text.splitlines()
+    out, on = [], False
+    for ln in lines:
+        if not on and ln.startswith('def %s(' % fname):
+            on = True
+        elif on and ln.startswith('rt.register_function('):
+            break
+        if on:
+            out.append(ln)
+    while out and not out[-1].strip():
+        out.pop()
+    return out
+
+
+def function_corpus(ctx, ir, thorough):
+    """[(live module, emitted text, namespace, [(function object, irimport tuple, coq term)])] of functions in the
+    modelled fragment: the hand-written phi programs and irgen modules with integer/loop/phi features"""
+    import irimport
+    sys.path.insert(0, os.path.join(vlib.VERIF, 'tools', 'gen'))
+    import irgen
+    mods = []
+    pm = ir.Module('c24cfg')
+    for pr in fixed_programs() + [random_program(ctx.rng, 100 + k) for k in range(10 if thorough else 4)]:
+        pr.build(ir, pm)
+    mods.append(pm)
+    for k in range(24 if thorough else 8):
+        try:
+            mods.append(irgen.gen_module(ctx.rng, size=2 + k % 3, features=FUNC_FEATURES, name='g%d' % k))
+        except Exception as ex:   # noqa: BLE001
+            ctx.log('irgen failed:', ex)
+    out = []
+    for m in mods:
+        try:
+            mpy = irimport.module_to_py(m)
+            text = emit_module(m, verify=True)
+            ns = load_module(text)
+        except Exception as ex:   # noqa: BLE001  (rol/ror etc. make the module unloadable: not this stage's business)
+            continue
+        fl = []
+        for fobj, fpy in zip(m.functions, mpy[3]):
+            if in_fragment(fpy):
+                fl.append((fobj, fpy, '(%s)' % irimport.func_to_coq(fpy)))
+        out.append((m, text, ns, fl))
+    return out
+
+
+def run_with_alarm(fn, args, seconds=5):
+    import signal
+
+    def h(sig, frm):
+        raise TimeoutError()
+    old = signal.signal(signal.SIGALRM, h)
+    signal.alarm(seconds)
+    try:
+        return outcome(fn, *args)
+    finally:
+        signal.alarm(0)
+        signal.signal(signal.SIGALRM, old)
+
+
 # ------------------------------------------------------------------ known defect classes
 CLS_ROUND = 'rounds-half-even-instead-of-truncating'
 CLS_PHI = 'assigns-phis-of-untaken-successor'
@@ -697,10 +833,10 @@ def run(ctx):
     ir, _, _ = _ppci()
     thorough = not ctx.quick()
     infos, rows, rt_text = regen(ctx)
-    ok, _ = ctx.build(['Proofs/C24_ir2py.vo'])
+    ok, _ = ctx.build(['Proofs/C24_ir2py.vo', 'Proofs/C24_func.vo', 'Proofs/C24_rot.vo'])
     if ok:
         ctx.check_props('Props/C24.v')
-    model_ok = ctx.build(['Model/Ir2Py.vo', 'Lib/Val.vo'])[0]
+    model_ok = ctx.build(['Model/Ir2Py.vo', 'Model/Ir2PyFunc.vo', 'Model/Ir2PyRot.vo', 'Lib/Val.vo'])[0]
 
     # ---- emit the one-instruction module once
     m, idx = build_arith_module(ir)
@@ -742,6 +878,12 @@ def run(ctx):
             for bits in ((8, 32, 64) if thorough else (8, 64)):
                 add('ishl %s %s %d' % (z(a), z(n), bits), outcome(IrPy.ishl, a, n, bits), ('ishl', (a, n, bits)))
                 add('ishr %s %s %d' % (z(a), z(n), bits), outcome(IrPy.ishr, a, n, bits), ('ishr', (a, n, bits)))
+    if hasattr(IrPy, 'irol') and hasattr(IrPy, 'iror'):
+        for a in [0, 1, -1, 5, -128, 129, 255, 2 ** 31, 2 ** 64 - 1, -2 ** 63]:
+            for n in [0, 1, 7, 8, 9, 31, 63, 64, -1]:
+                for bits in (8, 32, 64):
+                    add('irol_m %s %s %d' % (z(a), z(n), bits), outcome(IrPy.irol, a, n, bits), ('irol', (a, n, bits)))
+                    add('iror_m %s %s %d' % (z(a), z(n), bits), outcome(IrPy.iror, a, n, bits), ('iror', (a, n, bits)))
     n_helper = len(cases)
 
     # ---- (b) text correspondence: printed model == emitted statements, every (op, type)
@@ -750,6 +892,15 @@ def run(ctx):
             if op in ('rol', 'ror'):
                 t2 = emit_module(build_rot_module(ir, op, tn))
                 lines = entry_lines(t2, 'f')
+                if any('rt.iro' in l for l in lines):
+                    # repaired lowering (fixes/C24-rol-ror.diff): helper call; values through Model.Ir2PyRot
+                    ctx.cov['stages']['rot_variant'] = 'helper'
+                    add('rot_lines %s "r" "a" "b" %s' % (cop, tn), lines, ('text-rot', (op, tn)))
+                    rfn = load_module(t2)['f']
+                    for a in small_pool(ctx.rng, bits, sg):
+                        for b in small_pool(ctx.rng, bits, sg)[:6] + [1, bits - 1]:
+                            add('py_rot %s %s %s %s' % (cop, tn, z(a), z(b)), outcome(rfn, a, b), ('rot', (op, tn, a, b)))
+                    continue
             else:
                 lines = entry_lines(text, idx['binop'][(op, tn)])
             add('show_stmts (gen_binop %s "r" "a" "b" %s)' % (cop, tn), lines, ('text-binop', (op, tn)))
@@ -864,15 +1015,36 @@ def run(ctx):
                     add(term, OkV([scope[n] for n in names]), ('phi', (pr.name, bn, line)))
     n_phi = len(cases) - n_helper - n_text - n_value - n_mem
 
+    # ---- (f) whole functions: printed model == emitted text, model run == executed function
+    sys.path.insert(0, os.path.join(vlib.VERIF, 'tools', 'gen'))
+    import irgen
+    corpus = function_corpus(ctx, ir, thorough)
+    n_fun = 0
+    for (m, ftext, fns, fl) in corpus:
+        for (fobj, fpy, term) in fl:
+            n_fun += 1
+            flines = function_text(ftext, fobj.name)
+            style = 'FreeMark' if any('_irpy_stack_mark' in l for l in flines) else 'FreeStatic'
+            ctx.cov['stages']['free_style'] = style
+            add('show_compiled_s %s %s' % (style, term), flines, ('text-function', (m.name, fobj.name)))
+            add('names_okb %s' % term, True, ('names-ok', (m.name, fobj.name)))
+            for _ in range(4 if thorough else 2):
+                args = [ctx.rng.randrange(0, 9)] if m.name == 'c24cfg' else irgen.gen_args(ctx.rng, fobj)
+                got = run_with_alarm(fns[fobj.name], args)
+                add('run_compiled 400 %s %s' % (term, to_term(list(args))), got, ('run-function', (m.name, fobj.name, args)))
+    ctx.cov['stages']['functions_in_fragment'] = n_fun
+    n_func = len(cases) - n_helper - n_text - n_value - n_mem - n_phi
+
     ctx.cov['stages']['correspondence_distribution'] = {
-        'helpers': n_helper, 'emitted_text': n_text, 'values': n_value, 'memory': n_mem, 'phi_assignments': n_phi}
+        'helpers': n_helper, 'emitted_text': n_text, 'values': n_value, 'memory': n_mem, 'phi_assignments': n_phi,
+        'functions': n_func}
     ctx.cov['distinct_nontrivial'] += nontriv
     for r in recs[n_helper + n_text:: max(1, (len(recs) - n_helper - n_text) // 8)]:
         ctx.note_sample({'kind': r[0], 'args': repr(r[1])})
     if model_ok:
         import time
         t0 = time.time()
-        bad = run_batched(ctx, 'ir2py', ['Spec.IRSemArith', 'Gen.ir2py_runtime', 'Model.Ir2Py'], cases)
+        bad = run_batched(ctx, 'ir2py', ['Spec.IRSemArith', 'Gen.ir2py_runtime', 'Model.Ir2Py', 'Model.Ir2PyFunc', 'Model.Ir2PyRot', 'Spec.IRSyntax'], cases)
         ctx.cov['stages']['correspondence_wall_s'] = round(time.time() - t0, 1)
         if bad:
             for i in bad[:6]:
@@ -884,12 +1056,12 @@ def run(ctx):
     # ---- search
     import time
     t0 = time.time()
-    search(ctx, shared=(ns, idx, cast_variant, progs, ptext, pv))
+    search(ctx, shared=(ns, idx, cast_variant, progs, ptext, pv), corpus=corpus)
     ctx.cov['stages']['search_wall_s'] = round(time.time() - t0, 1)
     ctx.cov['exhaustive'] = False
 
 
-def search(ctx, shared=None):
+def search(ctx, shared=None, corpus=None):
     """implementation (executed emitted Python) vs the independent oracle of the IR semantics"""
     ir, _, _ = _ppci()
     thorough = (not ctx.quick()) or bool(ctx.failed_stages)
@@ -1093,6 +1265,30 @@ def search(ctx, shared=None):
             else:
                 rec['key'] = 'cfg ' + pr.name
             ctx.violation(rec)
+
+    # whole functions of the modelled fragment (irgen CFGs, loops, phis, swaps) vs the IR hub's reference
+    # interpreter tools/irsem_py.py (independent of ir2py)
+    if corpus is None:
+        corpus = function_corpus(ctx, ir, thorough)
+    import irsem_py
+    sys.path.insert(0, os.path.join(vlib.VERIF, 'tools', 'gen'))
+    import irgen
+    nfun = 0
+    for (m, ftext, fns, fl) in corpus:
+        for (fobj, fpy, term) in fl:
+            nfun += 1
+            for _ in range(12 if thorough else 5):
+                args = [ctx.rng.randrange(0, 12)] if m.name == 'c24cfg' else irgen.gen_args(ctx.rng, fobj)
+                ref = irsem_py.run_main(m, fobj.name, args, fuel=3000)
+                if not isinstance(ref, OkV) or not isinstance(ref.v[0], int):
+                    continue            # undefined behaviour / out of fuel: nothing is demanded
+                n_eval += 1
+                got = run_with_alarm(fns[fobj.name], args)
+                if not (isinstance(got, OkV) and got.v == ref.v[0]):
+                    ctx.violation({'fn': 'generate_function', 'key': 'function %s.%s' % (m.name, fobj.name),
+                                   'function': fobj.name, 'args': list(args), 'expected': ref.v[0],
+                                   'actual': got.v if isinstance(got, OkV) else 'exception', 'ir': str(fpy)[:1500]})
+    ctx.cov['stages']['functions_vs_reference'] = nfun
     ctx.cov['stages']['oracle_sweep'] = ctx.cov['stages'].get('oracle_sweep', 0) + n_eval
     ctx.cov['evaluations'] += n_eval
 
@@ -1135,20 +1331,26 @@ def replay(rec):
 
 
 MANIFEST = {
-    'text': 'proof: for every integer width and every in-range operand, the Python statements that ir2py emits for '
+    'text': 'proof: (1) for every integer width and every in-range operand, the Python statements that ir2py emits for '
             '+ - * / % | & ^ << >>, unary - ~, comparisons and int->int casts, run over the runtime helpers it emits '
-            '(correct, idiv, irem, ishl, ishr), compute exactly the IR result (wrap-around, truncating / and %, '
-            'arithmetic/logical >>) whenever the IR defines one; load_/store_ helpers of all eight integer types are '
-            'little-endian two\'s complement with store-then-load identity and no effect outside the accessed bytes; '
-            'a per-edge phi tuple assignment is the simultaneous phi semantics. Refuted with witnesses replayed on '
-            'the real code: float->int casts round (2.7 -> 3) instead of truncating, and fill_phis overwrites the phis of '
-            'the successor that is not taken (live-out loop phi returns n instead of n-1); repairs are proposed and the '
-            'positive theorems hold for the repaired generators. rol/ror are emitted as invalid Python (known finding)',
-    'note': 'trusted: Coq kernel; py2coq on the emitted helper text; the hand model of the statement generators (its '
-            'printed text is compared with the emitted text for every (op, type) on every run, its values on boundary '
-            'pools); CPython facts about int, round, int(float), struct on a little-endian host. Not modelled: the '
-            'while/if block dispatcher, calls, alloca/free, float arithmetic, ptr arithmetic (no wrap; ptr is a 4-byte '
-            'signed int in memory) - these are only executed against an independent reference interpreter. No axioms.',
-    'technique': 'Coq proof over py2coq-translated emitted runtime + hand model of the generators, text/value '
-                 'correspondence, reference-interpreter search',
+            '(correct, idiv, irem, ishl, ishr; translated from the emitted text on every run), compute exactly the IR '
+            'result (wrap-around, truncating / and %, arithmetic/logical >>) whenever the IR defines one; the repaired '
+            'float->int cast truncates; (2) load_/store_ helpers of all eight integer types are little-endian two\'s '
+            'complement, store-then-load is the identity and nothing outside the accessed bytes changes; (3) a per-edge '
+            'phi tuple assignment is the simultaneous phi semantics; (4) c24_block_switch_simulates: for every '
+            'well-formed IR module and every function built from integer constants, binops, unops, int casts, phis, '
+            'jumps, conditional jumps and return, if the reference IR semantics (Spec.IRSem.run_function) yields a value '
+            'then the emitted Python function (the while/if block dispatcher with per-edge phi fills) returns the same '
+            'value - proved for all functions, CFG shapes, loops and iteration counts. Refuted with witnesses: the old '
+            'int(round(x)) cast, the old all-successor phi fill (both repaired in /repo), rol/ror emitted as invalid '
+            'Python (repair proposed, repaired lowering proved exact)',
+    'note': 'trusted: Coq kernel; py2coq on the emitted helper text; the hand models of the statement generators and of '
+            'the emitted function body (their printed text is compared with the emitted text for every (op, type) and for '
+            'generated CFG functions on every run; values compared on boundary pools / generated arguments); the reading '
+            'of the IR in Spec.IRSemArith / Spec.IRSem; CPython facts about int, round, int(float), struct on a '
+            'little-endian host. Not modelled in Coq: calls, memory instructions inside functions, alloca/free, float '
+            'arithmetic, ptr arithmetic (no wrap; ptr is a 4-byte signed int in memory), Undefined - executed against '
+            'the independent reference interpreter only. No axioms.',
+    'technique': 'Coq proof (forward simulation of the block dispatcher + per-instruction exactness) over the py2coq-'
+                 'translated emitted runtime and hand models; text/value correspondence; reference-interpreter search',
 }
